@@ -254,6 +254,7 @@ def running_average(V, dtype):
         st.update(o=o, a=a, n=n, w=w)
         return ((o, w), {})
     for out in V.run(S_ + 'Signal.running_average', setup):
+        out.replay_info = dict(module='filter', op='running_average', dtype=dtype)
         if not out.no_raise():
             continue
         o, a, n, w = st['o'], st['a'], st['n'], st['w']
